@@ -53,12 +53,12 @@ def sim_scripts(work, tier, sd):
     return scripts, stats
 
 
-def validate(work, trace_path, name, check_state=True, timeout=1200):
+def validate(work, trace_path, name, check_state=True, timeout=1200, off=()):
     """TLC trace validation; returns (accepted, lines_consumed, total_lines, result)"""
     d = os.path.join(work, "tv-" + name)
     os.makedirs(d, exist_ok=True)
     shutil.copyfile(trace_path, os.path.join(d, "trace.ndjson"))
-    consts = cc.constants(max_round=9, max_rh=9, leader="AnyLeader", track_pm=True, nodes_as_strings=True)
+    consts = cc.constants(max_round=9, max_rh=9, leader="AnyLeader", track_pm=True, nodes_as_strings=True, off=off)
     consts["CheckState"] = "TRUE" if check_state else "FALSE"
     cfg = vlib.cfg_text(spec="TraceSpec", constants=consts, invariants=["RealAgreement"], postcondition="TraceAccepted")
     r = vlib.tlc(d, "ConsensusTrace", cfg, workers=1, timeout=timeout)
@@ -92,18 +92,29 @@ def main(tier):
         attack_results = []
         scripts = [c["script"] for c in corpus]
         runs, attack_trace = cc.replay(bftsim, scripts, work, "attacks") if scripts else ([], None)
-        for c, run in zip(corpus, runs):
+        for k, (c, run) in enumerate(zip(corpus, runs)):
             end = run[-1]
             refused_at = None
             if end["err"]:
                 refused_at = {"step": end["i"], "action": end["a"]["a"], "why": end["err"]}
+            # TLC evaluates Agreement on the recorded real states of this replay and checks that the real replicas
+            # behaved as the guarded spec says (i.e. refused the attack at the guarded step)
+            ap = os.path.join(work, "attack-%d.ndjson" % k)
+            with open(ap, "w") as fh:
+                for ln in run:
+                    fh.write(json.dumps(ln) + "\n")
+            acc, cons, tot, tr = validate(work, ap, "attack-%d" % k)
             res = {"guard": c["guard"], "id": c["script"]["id"], "steps": len(c["script"]["actions"]),
-                   "agreement": end["agreement"], "refused_at": refused_at,
+                   "agreement_on_real_state": end["agreement"] and tr.violated != "RealAgreement", "refused_at": refused_at,
+                   "conforms_to_guarded_spec": acc, "lines_accepted": cons, "lines": tot,
                    "commits": {n: s["committed"] for n, s in end["st"].items()}}
             attack_results.append(res)
-            if not end["agreement"]:
+            if tr.violated == "RealAgreement" or not end["agreement"]:
                 v.violation("attack:" + c["guard"], "attack script for weakened guard %s makes honest replicas commit different blocks: %s"
                             % (c["guard"], res["commits"]), {"script": c["script"], "trace": run})
+            elif not acc:
+                rec = run[min(cons, len(run) - 1)]
+                v.divergence("attack replay %s left the guarded spec at step %d %s without breaking Agreement" % (c["guard"], rec["i"], rec["a"]["a"]))
         # 3. simulated behaviours on real code
         sscripts, sim_stats = sim_scripts(work, tier, sd)
         sruns, sim_trace = cc.replay(bftsim, sscripts, work, "sim")
@@ -113,16 +124,33 @@ def main(tier):
             if not run[-1]["agreement"]:
                 v.violation("sim:" + run[0]["script"], "honest replicas committed different blocks on a behaviour of the guarded spec", {"trace": run})
         # 4. trace validation (real states vs spec), attacks and simulations together
-        allp = os.path.join(work, "all.ndjson")
-        with open(allp, "w") as fh:
-            for p in (attack_trace, sim_trace):
-                if p:
-                    fh.write(open(p).read())
+        allp = sim_trace
         accepted, consumed, total, tr = validate(work, allp, "all")
         if tr.violated == "RealAgreement":
             v.violation("trace:agreement", "Agreement is false on a recorded real state (TLC)", {"trace": allp})
         elif not accepted:
-            v.divergence("trace rejected by Consensus.tla at line %d of %d: the real replicas left the specified behaviour" % (consumed + 1, total))
+            # explain the divergence: which guards of the intended design does the code not implement?
+            off, best = [], consumed
+            improved = True
+            while improved and best < total:
+                improved = False
+                for g in cc.GUARDS:
+                    if g in off:
+                        continue
+                    a2, c2, _, r2 = validate(work, allp, "x-" + g, off=off + [g])
+                    if r2.violated == "RealAgreement":
+                        c2 = total
+                    if c2 > best:
+                        off, best, improved = off + [g], c2, True
+                        break
+            rec = json.loads(open(allp).read().splitlines()[min(consumed, total - 1)])
+            v.divergence("trace rejected by the guarded Consensus.tla at line %d of %d (script %s step %d %s); %s"
+                         % (consumed + 1, total, rec["script"], rec["i"], rec["a"]["a"],
+                            ("explained by missing guard(s) %s in the code" % off) if best >= total else
+                            ("unexplained beyond line %d even with guards %s off" % (best + 1, off))))
+            missing_guards = off
+        else:
+            missing_guards = []
         # 5. binding self-test: corrupt one recorded field, TLC must reject
         selftest = "skipped"
         if accepted and total > 5:
@@ -152,7 +180,7 @@ def main(tier):
             "attack_scripts_replayed": len(runs), "attack_results": attack_results,
             "behaviours_replayed": len(sruns), "behaviours_with_commit": commits, "behaviours_infeasible": len(infeasible),
             "simulation": sim_stats, "coverage_by_action": {k: list(vv) for k, vv in cov.items()},
-            "binding_selftest": selftest, "model_divergences": v.divergences,
+            "binding_selftest": selftest, "guards_missing_in_code": missing_guards, "model_divergences": v.divergences,
             "known_findings_reproduced": [k for k, _ in v.known],
             "samples": samples,
         }
@@ -160,7 +188,7 @@ def main(tier):
                             ["BLS/hash primitives are sound", "controller callbacks scripted: proposals always validate, committee constant across root heights",
                              "certificate gate of HandlePeerBlock re-implemented in the driver (C02 checks the real one)"])
         print("C01 %s: design %d states/%d transitions depth %d; attacks %d (all refused: %s); behaviours %d (%d with commit, %d infeasible); trace %d/%d lines accepted; selftest: %s"
-              % (tier, r.distinct, r.generated, r.depth, len(runs), all(a["agreement"] for a in attack_results), len(sruns), commits, len(infeasible), consumed, total, selftest))
+              % (tier, r.distinct, r.generated, r.depth, len(runs), all(a["agreement_on_real_state"] for a in attack_results), len(sruns), commits, len(infeasible), consumed, total, selftest))
         if infeasible and len(infeasible) > len(sruns) // 2:
             raise vlib.Infra("driver cannot realise most spec behaviours: %s" % infeasible[0]["err"])
         return v.exit_code()
